@@ -629,7 +629,6 @@ func (st *Stack) compactRange(first, last int, expiration *LogExpirationConfig) 
 	if err != nil {
 		return false, err
 	}
-
 	defer func() {
 		if tmpTable != "" {
 			os.Remove(tmpTable)
@@ -647,6 +646,32 @@ func (st *Stack) compactRange(first, last int, expiration *LogExpirationConfig) 
 	lockFileName = st.listFile + ".lock"
 	defer lockFile.Close()
 
+	// The lock was released while merging, so other processes may
+	// have added tables or compacted other ranges. Our range is
+	// protected by the per-table locks, so it must still be present.
+	// Replace it in the current list.
+	curNames, err := st.readNames()
+	if err != nil {
+		return false, err
+	}
+	rangeStart := -1
+	for i := 0; i+last-first < len(curNames); i++ {
+		found := true
+		for j := first; j <= last; j++ {
+			if curNames[i+j-first] != st.stack[j].name {
+				found = false
+				break
+			}
+		}
+		if found {
+			rangeStart = i
+			break
+		}
+	}
+	if rangeStart < 0 {
+		return false, nil
+	}
+
 	fn := formatName(
 		st.stack[first].MinUpdateIndex(),
 		st.stack[last].MaxUpdateIndex())
@@ -662,17 +687,11 @@ func (st *Stack) compactRange(first, last int, expiration *LogExpirationConfig) 
 	}
 
 	var names []string
-	for i := 0; i < first; i++ {
-		names = append(names, st.stack[i].name)
-	}
-
+	names = append(names, curNames[:rangeStart]...)
 	if !emptyTable {
 		names = append(names, fn)
 	}
-
-	for i := last + 1; i < len(st.stack); i++ {
-		names = append(names, st.stack[i].name)
-	}
+	names = append(names, curNames[rangeStart+last-first+1:]...)
 
 	if _, err := lockFile.Write([]byte(strings.Join(names, "\n"))); err != nil {
 		os.Remove(destTable)
